@@ -360,6 +360,11 @@ class WebSocketApp:
             self._callback(self.on_close, close_status_code, close_reason)
 
         def setSock(reconnecting: bool = False) -> None:
+            if reconnecting and not self.keep_running:
+                # close() was called while this reconnect was pending:
+                # end the run instead of connecting again
+                return teardown()
+
             if reconnecting and self.sock:
                 self.sock.shutdown()
 
